@@ -442,7 +442,9 @@ Definition handle_success_controlled (cfg : config) (m : msg) (l r : cand) (src 
                      then set_selected (p_id p) else nop
                    end
                  end
-               end)
+               end) ;;
+             (* the deferred nomination is consumed: a later response on this pair does not replay it *)
+             upd_pair (p_id p0) (fun p => set_p_nom_value None (set_p_nom_on_succ false p))
            else nop) ;;
           upd_pair (p_id p0) (fun p => set_p_resp_recv (p_resp_recv p + 1) p)
         end)
